@@ -791,6 +791,12 @@ class Phase(Angle):
             elif phase_out is not None and function is np.floor_divide:
                 return NotImplemented
 
+            # The remainder is built up in the output; if that is the dividend
+            # itself (p %= d), work in a new array and copy at the end.
+            target = phase_out
+            if phase_out is not None and np.may_share_memory(phase_out, self):
+                phase_out = None
+
             fd = np.floor_divide(self.cycle, inputs[1], out=fd_out)
             corr = Phase.from_angles(inputs[1], factor=fd, out=phase_out)
             remainder = np.subtract(self, corr, out=corr)
@@ -814,6 +820,9 @@ class Phase(Angle):
                 fd += fdx
                 corr = Phase.from_angles(inputs[1], factor=fd, out=corr)
                 remainder = np.subtract(self, corr, out=corr)
+
+            if target is not None and phase_out is None:
+                remainder = np.positive(remainder, out=target)
 
             if function is np.floor_divide:
                 return fd
